@@ -49,6 +49,8 @@ class RandEnv(T.EvalEnv):
         if kind == "sym":
             if name in self.dimv:
                 v = self.dimv[name]
+            elif name in getattr(F, "dim_values", {}):
+                v = self.rng.choice(F.dim_values[name])
             elif name in F.dims:
                 v = self.rng.choice([2, 3])
             elif name.startswith("B_"):
@@ -56,30 +58,39 @@ class RandEnv(T.EvalEnv):
             elif name in F.pos_syms:
                 v = self.rng.uniform(0.3, 2.0)
             elif name in F.nonneg_syms:
-                v = self.rng.uniform(0.0, 2.0)
+                v = 0.0 if self.rng.random() < 0.25 else self.rng.uniform(0.0, 2.0)      # the boundary value is a case of its own
             else:
                 v = self.rng.uniform(-2.0, 2.0)
         else:
+            isint, kind = kind == "app:int", "app"
+            key = (kind, name, args)
+            if key in self.memo:
+                return self.memo[key]
             if name.startswith("csz:") or name.startswith("coff:"):
                 raise KeyError("partition function")
+            if name in getattr(F, "samplers", {}):
+                v = self.memo[key] = F.samplers[name](args, self)
+                return v
             if name in F.pos_apps:
-                v = self.rng.uniform(0.3, 2.0)
+                v = self.rng.randint(1, 3) if isint else self.rng.uniform(0.3, 2.0)
             elif name in F.nonneg_apps:
-                v = self.rng.uniform(0.0, 2.0)
+                v = self.rng.randrange(3) if isint else (0.0 if self.rng.random() < 0.25 else self.rng.uniform(0.0, 2.0))
             elif name in getattr(F, "int_apps", {}):
                 v = self.rng.randrange(F.int_apps[name])
+            elif isint:
+                v = self.rng.randrange(2)      # integer-valued data (labels, assignments): small values so indicators fire
             else:
                 v = self.rng.uniform(-2.0, 2.0)
         self.memo[key] = v
         return v
 
 
-def numeric_differs(a, b, F, trials=5, seed=0):
+def numeric_differs(a, b, F, trials=8, seed=0):
     """evaluate both terms at random points. returns ('differs', witness) |
     ('same', None) | ('noeval', reason)"""
     a, b = P(a), P(b)
     free = sorted((a.syms | b.syms))
-    same = 0
+    same, why = 0, None
     for t in range(trials):
         env = RandEnv(seed * 1000 + t, F)
         # free index symbols take small in-range values
@@ -88,7 +99,10 @@ def numeric_differs(a, b, F, trials=5, seed=0):
                 env.syms[n] = t % 2
         try:
             va, vb = T.evalf(a, env), T.evalf(b, env)
-        except (KeyError, TypeError, ValueError, ZeroDivisionError, OverflowError) as e:
+        except (ZeroDivisionError, OverflowError, ValueError) as e:
+            why = "%s: %s" % (type(e).__name__, e)       # an undefined point (e.g. a sampled zero count under a division): next sample
+            continue
+        except (KeyError, TypeError) as e:
             return "noeval", "%s: %s" % (type(e).__name__, e)
         if math.isnan(va) or math.isnan(vb):
             continue
@@ -97,7 +111,7 @@ def numeric_differs(a, b, F, trials=5, seed=0):
                  "point": {k[1] + (str(list(k[2])) if k[2] else ""): v for k, v in list(env.memo.items())[:40]}}
             return "differs", w
         same += 1
-    return ("same", None) if same else ("noeval", "all trials NaN")
+    return ("same", None) if same else ("noeval", why or "all trials NaN")
 
 
 # ---------------------------------------------------------------- deep comparison
@@ -204,6 +218,37 @@ def _kind(v):
     return type(v).__name__ + ("(len %d)" % len(v) if isinstance(v, (list, tuple)) else "")
 
 
+INJECTIVE = ("minv", "chol_lower", "chol_upper")
+
+
+def _single_atom(p):
+    if isinstance(p, Poly) and len(p.terms) == 1:
+        m, c = p.terms[0]
+        if len(m) == 1 and m[0][1] == 1:
+            return m[0][0], c
+    return None, None
+
+
+def descend_injective(g, e):
+    """strip matching injective matrix functions / lambdas from both sides"""
+    for _ in range(12):
+        a, ca = _single_atom(P(g))
+        b, cb = _single_atom(P(e))
+        if a is None or b is None or ca != cb or a.kind != b.kind:
+            break
+        if a.kind == "app" and a.args[0] == b.args[0] and a.args[0] in INJECTIVE and len(a.args) == len(b.args):
+            diff = [k for k in range(1, len(a.args)) if a.args[k] is not b.args[k] and not T.equal(a.args[k], b.args[k])]
+            if diff != [2]:
+                break
+            g, e = a.args[2], b.args[2]
+        elif a.kind == "lam":
+            v = T.fresh("q")
+            g, e = T.instantiate(a, v), T.instantiate(b, v)
+        else:
+            break
+    return g, e
+
+
 def compare_terms(g, e, F, name, out, hyps=(), t0=None):
     t0 = t0 or time.time()
     if T.equal(g, e):
@@ -222,6 +267,15 @@ def compare_terms(g, e, F, name, out, hyps=(), t0=None):
     nd, w = numeric_differs(g, e, F)
     d = T.clear_rcp(g - e)
     resid = "residual code-spec = %s" % T.show(d, 600)
+    if nd != "differs":
+        # refutation through an injective matrix function (inverse, Cholesky factor): f(A)[i,j] vs f(B)[i,j] for all i,j
+        # differ somewhere iff A and B differ somewhere -- compare the arguments numerically
+        g3, e3 = descend_injective(g, e)
+        if g3 is not g:
+            nd3, w3 = numeric_differs(g3, e3, F)
+            if nd3 == "differs":
+                nd, w = nd3, w3
+                resid += " [arguments of the enclosing inverse/Cholesky factor differ: %s]" % T.show(T.clear_rcp(g3 - e3), 300)
     if nd == "differs":
         out.append(Clause(name, "refuted", info.get("backend", "z3") + "+eval", resid, witness=w, secs=time.time() - t0))
     else:
